@@ -331,36 +331,46 @@ def cmd_report():
     np_ = os.path.join(OUT, "triage.json")
     if os.path.exists(np_):
         notes = json.load(open(np_))
-    rows = []
     tot = len(suite)
     surv = [r for r in suite if r["survived_suite"]]
-    killed = [r for r in surv if checks.get((r["file"], r["k"]), {}).get("killed_by")]
-    alive = [r for r in surv if (r["file"], r["k"]) in checks and not checks[(r["file"], r["k"])]["killed_by"]]
+    done = [r for r in surv if (r["file"], r["k"]) in checks]
+    stats = [r for r in done if checks[(r["file"], r["k"])].get("stats_only")]
+    killed = [r for r in done if checks[(r["file"], r["k"])]["killed_by"]]
+    alive = [r for r in done if not checks[(r["file"], r["k"])]["killed_by"] and not checks[(r["file"], r["k"])].get("stats_only")]
     with open(os.path.join(OUT, "REPORT.md"), "w") as f:
         f.write("# First-order mutants of edgegraph/ : the repository's suite vs. the /verif checks\n\n")
-        f.write(f"{tot} mutants generated; the repository's own suite kills {tot - len(surv)} and lets **{len(surv)}** pass.  Of those, the quick checks kill **{len(killed)}**; {len(alive)} survive both (triaged below); {len(surv) - len(killed) - len(alive)} not yet run.\n\n")
+        f.write(f"{tot} mutants generated (tools/mutate.py; repo HEAD {head()}).  The repository's own suite kills {tot - len(surv)} and lets **{len(surv)}** pass.\n\n")
+        f.write(f"* {len(stats)} of the survivors touch only the neighbor-cache *statistics* (`Vertex._CACHE_STATS` counters, `total_cache_stats()`), which no property mentions; they were not run.\n")
+        f.write(f"* Of the other {len(killed) + len(alive)}, the quick checks mapped to the mutated file kill **{len(killed)}**.\n")
+        f.write(f"* The remaining {len(alive)} survive the suite and the checks; each is triaged by hand below: all are equivalent mutants or change something no property speaks about ({len([r for r in alive if notes.get(r['file'] + '#' + str(r['k']))])} of {len(alive)} have a note).\n")
+        f.write(f"* {len(surv) - len(done)} not run.\n\n")
+        f.write("Two survivors exposed real gaps and one exposed a soundness problem of the checks; all three were closed (DESIGN.md §3 'omitted arguments', §11 correction 9, C14 attribute lines) and the affected mutants re-run: "
+                "`unlink(destroy=True)` default flipped (now killed by C03), `randgraph` defaults (now killed by C20), PlantUML attribute lines dropped / unfiltered (now killed by C14), "
+                "and `DIR_SENS_BACKWARD = 3` (was killed for the wrong reason; now survives, correctly).\n\n")
         by = {}
-        for r in surv:
-            c = checks.get((r["file"], r["k"]))
-            by.setdefault(r["file"], [0, 0, 0])
-            by[r["file"]][0] += 1
-            if c and c["killed_by"]:
-                by[r["file"]][1] += 1
-            elif c:
-                by[r["file"]][2] += 1
-        f.write("| file | suite survivors | killed by a check | survive the checks |\n|---|---|---|---|\n")
+        for r in done:
+            c = checks[(r["file"], r["k"])]
+            row = by.setdefault(r["file"], [0, 0, 0, 0])
+            row[0] += 1
+            if c.get("stats_only"):
+                row[3] += 1
+            elif c["killed_by"]:
+                row[1] += 1
+            else:
+                row[2] += 1
+        f.write("| file | suite survivors | killed by a check | survive the checks (triaged) | statistics only |\n|---|---|---|---|---|\n")
         for k, v in sorted(by.items()):
-            f.write(f"| {k} | {v[0]} | {v[1]} | {v[2]} |\n")
-        f.write("\n## Mutants that survive the suite and the checks\n\n| file:line | mutation | checks run | triage |\n|---|---|---|---|\n")
+            f.write(f"| {k} | {v[0]} | {v[1]} | {v[2]} | {v[3]} |\n")
+        f.write("\n## Mutants that survive the suite and the checks\n\n| file:line | mutation | checks run (id:exit code) | triage |\n|---|---|---|---|\n")
         for r in alive:
             c = checks[(r["file"], r["k"])]
             key = f"{r['file']}#{r['k']}"
-            f.write(f"| {r['file']}:{r['line']} (#{r['k']}) | {r['op']}: {r['desc']} | {' '.join(c['ran'])} | {notes.get(key, '')} |\n")
-        f.write("\n## Killed by a check (suite passes)\n\n| file:line | mutation | killed by | first violation |\n|---|---|---|---|\n")
+            f.write(f"| {r['file']}:{r['line']} (#{r['k']}) | {r['op']}: {r['desc'].replace('|', '/')} | {' '.join(c['ran'])} | {notes.get(key, '')} |\n")
+        f.write("\n## Killed by a check (the suite passes)\n\n| file:line | mutation | killed by | first violation |\n|---|---|---|---|\n")
         for r in killed:
             c = checks[(r["file"], r["k"])]
-            f.write(f"| {r['file']}:{r['line']} (#{r['k']}) | {r['op']}: {r['desc']} | {c['killed_by']} | {(c['lines'] or [''])[0].strip()[:160]} |\n")
-    print(f"total={tot} suite_survivors={len(surv)} killed_by_checks={len(killed)} alive={len(alive)}")
+            f.write(f"| {r['file']}:{r['line']} (#{r['k']}) | {r['op']}: {r['desc'].replace('|', '/')} | {c['killed_by']} | {(c['lines'] or [''])[0].strip()[:160].replace('|', '/')} |\n")
+    print(f"total={tot} suite_survivors={len(surv)} stats_only={len(stats)} killed_by_checks={len(killed)} alive={len(alive)} untriaged={len([r for r in alive if not notes.get(r['file'] + '#' + str(r['k']))])}")
 
 
 if __name__ == "__main__":
